@@ -130,6 +130,15 @@ PROGRAMS = {
     "calls": [T("function"), T("g"), T("("), T("int"), T("p", True), T(","), T("int"), T("q", True), T(")"), T("->"), T("int"), T("{"), T("return"), T("p", True), T("-"), T("q", True), T(";"), T("}"),
               T("export"), T("function"), T("f"), T("("), T("int"), T("a", True), T(")"), T("->"), T("int"), T("{"), T("if"), T("("), T("a", True), T("<"), T("3", True), T(")"), T("{"),
               T("a", True), T("+="), T("g"), T("("), T("a", True), T(","), T("007", True), T(")"), T(";"), T("}"), T("return"), T("a", True), T(";"), T("}")],
+    # children that are merged out of source order (while/do visit the body before the condition; a module visits its
+    # declarations and types before its functions whatever their order in the text)
+    "loops": [T("export"), T("function"), T("f"), T("("), T("int"), T("n", True), T(")"), T("->"), T("int"), T("{"), T("int"), T("t", True), T("="), T("0", True), T(";"),
+              T("while"), T("("), T("t", True), T("<"), T("n", True), T(")"), T("{"), T("t", True), T("="), T("t", True), T("+"), T("2", True), T(";"), T("}"),
+              T("do"), T("{"), T("n", True), T("-="), T("1", True), T(";"), T("}"), T("while"), T("("), T("n", True), T(">"), T("t", True), T(")"),
+              T("if"), T("("), T("t", True), T(")"), T("{"), T("n", True), T("="), T("3", True), T(";"), T("}"), T("else"), T("{"), T("n", True), T("="), T("4", True), T(";"), T("}"),
+              T("return"), T("n", True), T(";"), T("}")],
+    "decl-after": [T("export"), T("function"), T("f"), T("("), T("int"), T("a", True), T(")"), T("->"), T("int"), T("{"), T("return"), T("a", True), T("+"), T("g1", True), T(";"), T("}"),
+                   T("int"), T("g1", True), T(";"), T("struct"), T("SL"), T("{"), T("float"), T("lf", True), T(";"), T("}"), T("float[2]"), T("g2", True), T(";")],
     "short-decl": [T("export"), T("function"), T("f"), T("("), T("int"), T("a", True), T(")"), T("->"), T("int"), T("{"), T("int"), T("v", True), T("="), T("a", True), T(";"),
                    T("return"), T("v", True), T("++"), T(";"), T("}")],
     "short-loop": [T("export"), T("function"), T("f"), T("("), T("int"), T("n", True), T(")"), T("->"), T("int"), T("{"), T("for"), T("("), T("int"), T("i", True), T("="), T("0", True), T(";"),
@@ -354,6 +363,14 @@ def w_diag(job):
     return n, nt, fails, counts
 
 
+
+def rejob(x):
+    """Re-execute one worker job (used by ./check --rejob for history-dependent failures)."""
+    def tup(v):
+        return tuple(tup(y) for y in v) if isinstance(v, list) else v
+    return globals()[x[0]](tup(x[1]))
+
+
 def _dispatch(job):
     fn, arg = job
     return fn(arg)
@@ -362,7 +379,7 @@ def _dispatch(job):
 def run(tier, seed):
     thorough = tier == "thorough"
     jobs = []
-    ns = 32
+    ns = 8     # hermetic jobs: a fresh interpreter each, keep them coarse
     maxlen = 12 if thorough else 10
     for s in range(ns):
         jobs.append((w_mapping, (maxlen, s, ns, 8 if thorough else 7)))
@@ -379,7 +396,10 @@ def run(tier, seed):
     res = pool.pmap(_dispatch, jobs)
     n = nt = 0
     failures, counts, per = [], {}, {}
-    for (fn, _), (a, b, fl, c) in zip(jobs, res):
+    for (fn, arg), (a, b, fl, c) in zip(jobs, res):
+        for _f in fl:
+            if isinstance(_f, dict) and "key" in _f:
+                _f.setdefault("job", {"fn": "nslmc.props.c20:rejob", "arg": [fn.__name__, arg]})
         n += a
         nt += b
         per[fn.__name__] = per.get(fn.__name__, 0) + a
